@@ -538,6 +538,14 @@ def check_C09(ctx):
     reader_run(ctx, "hdr", 1, "none", None, unit=False, expect_violation=True, inv=["ErrorProvenance"])
     summ = harness(ctx, ["reader", "replay", "--prop", "C09"], cases_file=cases, name="reader-replay", timeout=3600)
     report_mismatches(ctx, summ, "an I/O fault is not surfaced as the Reader specification requires")
+    # write side: Writer.tla (the writer as environment of write_all / flush), every script replayed into Beatmap::encode
+    sany(ctx, "Writer")
+    wcases = os.path.join(ctx.work, "writer.ndjson")
+    tlc(ctx, "Writer", "MC_Writer", dict(spec="Spec", invariants=["OkMeansComplete", "ErrorIsTheWriters", "NeverMoreThanAsked", "EmitCase"],
+        properties=["Terminates"], constants=dict(Total="6" if thorough else "5", MaxAccept="3", MaxIntr="2", Emit="TRUE")),
+        workers=8, timeout=1800, cases_file=wcases)
+    summ = harness(ctx, ["writer", "replay"], cases_file=wcases, name="writer-replay", timeout=3600)
+    report_mismatches(ctx, summ, "Beatmap::encode does not treat the writer's answers as Writer.tla requires")
     summ = harness(ctx, ["reader", "relations", "--prop", "C09", "--tier", ctx.tier], name="reader-rel", timeout=7000)
     report_mismatches(ctx, summ, "an injected read/write fault is swallowed, altered or followed by further I/O")
     ctx.assumptions += ["faults are injected at the BufRead / Write traits, where the crate's responsibility starts"]
